@@ -72,6 +72,7 @@ func runC08(c *core.Ctx) {
 	p := c.P
 	c.Rule("R1", "every invoke of a wrapped Queue/Stack method happens with the wrapper's lock held in exclusive mode (RLock is not enough: all wrapped methods mutate or perform channel operations)", 6)
 	c.Rule("R1b", "the lock taken by a wrapper method is released on every return path (defer Unlock or explicit unlock)", 6)
+	c.Rule("R1c", "wrapper methods have pointer receivers: a value receiver copies the struct, so the method would lock a private copy of the mutex (no mutual exclusion, and a copied locked mutex never unlocks)", 6)
 	c.Rule("R2", "the wrapped queue/stack field is only read as the receiver of a delegated call inside the wrapper's own methods (never returned, stored elsewhere or passed on)", 2)
 	c.Assume = append(c.Assume, "callers hand the wrapped queue/stack to the wrapper and do not keep using it directly",
 		"a blocking wrapped implementation (ChannelQueue.Take) blocks inside the critical section: progress is not claimed")
@@ -95,6 +96,8 @@ func runC08(c *core.Ctx) {
 		var r2detail string
 		for _, m := range p.Methods(p.Fpgo, tn) {
 			c.Analysed(core.FuncName(m))
+			_, isPtr := m.Signature.Recv().Type().(*types.Pointer)
+			c.Check(isPtr, "R1c", tn+"."+m.Name()+"/receiver", p.Pos(m.Pos()), "pointer receiver", "value receiver: "+tn+"."+m.Name()+" operates on a copy of the struct and therefore locks a copy of "+lockField+"; concurrent callers are not excluded and a copy taken while the lock is held stays locked forever")
 			locks := core.LocksIn(m, core.Lockset{})
 			recv := m.Params[0].Name()
 			lockPath := recv + "." + lockField
